@@ -125,6 +125,8 @@ var c17Patterns = []c17Pattern{
 	{"GET", "/{nope}", "variable names no field"}, {"GET", "/{tags}", "variable names a repeated field"}, {"GET", "/{all.int32_to_string_map}", "variable names a map field"},
 	{"GET", "", "blank template"}, {"GET", "/a%zz", "bad escape in template"}, {"GET", "/{child}", "variable names a message field"}, {"", "/r5", "blank HTTP method"},
 	{"GET", "/a//b", "empty segment"}, {"GET", "/{name", "unterminated variable"},
+	// a custom kind is an HTTP method: a token
+	{"GE T", "/r6/x", "HTTP method is not a token"}, {"PU\r\nT", "/r7/x", "HTTP method is not a token"}, {"GET/1", "/r8/x", "HTTP method is not a token"},
 }
 
 type c17Body struct{ body, resp, bad string }
